@@ -160,15 +160,16 @@ def tags_of(rec):
     return t if t is not None else b""
 
 
-def npm_order(tab, recs):
+def npm_order(tab, recs, exact_tag=True):
     """The order the property demands for npm: ascending by semver then spelling, unparsable
-    after parsable, the version tagged latest last unless it is a prerelease while others are not."""
+    after parsable, the version tagged latest last unless it is a prerelease while others are not.
+    exact_tag=False is the pinned reading of the code (F-C12-2): any tag text containing latest counts."""
     base = sorted(recs, key=functools.cmp_to_key(lambda x, y: npm_cmp(tab, x[0], y[0])))
     is_pre = lambda r: tab.parses(NPM, r[0]) and tab.prerelease(NPM, r[0])
     all_pre = all(is_pre(r) for r in base)
     li = -1
     for i, r in enumerate(base):
-        if b"latest" in tags_of(r):
+        if (b"latest" in tags_of(r).split(b",")) if exact_tag else (b"latest" in tags_of(r)):
             li = i
     if li >= 0 and not (is_pre(base[li]) and not all_pre):
         base = base[:li] + base[li + 1:] + [base[li]]
